@@ -1,5 +1,5 @@
 SPECIFICATION Spec
 CONSTANTS
-  Draws = 1
-  PlsDraws = 1
+  Draws = 2
+  PlsDraws = 2
 INVARIANT SpecOK
